@@ -643,7 +643,8 @@ macros[Profiles.CSS3_BASIC_USER_INTERFACE] = {
     'outline-5': r'{outline-width}(\s+{outline-color})?(\s+{outline-style})?',
     'outline-6': r'{outline-width}(\s+{outline-style})?(\s+{outline-color})?',
     'outline-color': r'{color}|invert|inherit',
-    'outline-style': r'auto|{border-style}|inherit',
+    # <border-style> without hidden
+    'outline-style': r'auto|none|dotted|dashed|solid|double|groove|ridge|inset|outset|inherit',
     'outline-width': r'{border-width}|inherit',
 }
 properties[Profiles.CSS3_BASIC_USER_INTERFACE] = {
